@@ -49,4 +49,34 @@ theorem fMeasure_one (b : Rat) : fMeasure 1 1 b = 1 := by
   field_simp
   ring
 
+/-- F is monotone in precision and recall (used for every "looser criterion" statement) -/
+theorem fMeasure_mono {p r p' r' b : Rat} (hp0 : 0 ≤ p) (hr0 : 0 ≤ r) (hp : p ≤ p') (hr : r ≤ r') :
+    fMeasure p r b ≤ fMeasure p' r' b := by
+  have hp'0 : 0 ≤ p' := le_trans hp0 hp
+  have hr'0 : 0 ≤ r' := le_trans hr0 hr
+  have hb : 0 ≤ b * b := mul_self_nonneg b
+  by_cases h0 : p = 0 ∧ r = 0
+  · have : fMeasure p r b = 0 := by unfold fMeasure; simp [h0]
+    rw [this]; exact fMeasure_nonneg hp'0 hr'0
+  · have h0' : ¬ (p' = 0 ∧ r' = 0) := by
+      rintro ⟨h1, h2⟩
+      exact h0 ⟨le_antisymm (h1 ▸ hp) hp0, le_antisymm (h2 ▸ hr) hr0⟩
+    unfold fMeasure
+    simp only [h0, h0', if_false]
+    have hd : 0 ≤ b * b * p + r := by positivity
+    have hd' : 0 ≤ b * b * p' + r' := by positivity
+    rcases eq_or_lt_of_le hd with hz | hpos
+    · rw [← hz]; simp
+      apply div_nonneg <;> positivity
+    · have hpos' : 0 < b * b * p' + r' := by
+        have : b * b * p + r ≤ b * b * p' + r' := by nlinarith
+        linarith
+      rw [div_le_div_iff₀ hpos hpos']
+      have e1 : 0 ≤ (b * b) * (p * p') * (r' - r) :=
+        mul_nonneg (mul_nonneg hb (mul_nonneg hp0 hp'0)) (sub_nonneg.2 hr)
+      have e2 : 0 ≤ (r * r') * (p' - p) := mul_nonneg (mul_nonneg hr0 hr'0) (sub_nonneg.2 hp)
+      have e3 : 0 ≤ 1 + b * b := by positivity
+      have key : p * r * (b * b * p' + r') ≤ p' * r' * (b * b * p + r) := by nlinarith
+      nlinarith [mul_le_mul_of_nonneg_left key e3]
+
 end Mir
